@@ -23,7 +23,10 @@ def run(ctx):
                 "behaviours (3 connections) projected to controllable actions (accept, send, reply, vanish, shutdown, "
                 "ctx_expire, close); the harness replays them against the real martian.Proxy through its own listener, "
                 "in-memory connections and gate-keeping round tripper, and TLC validates the recorded trace against the "
-                "model with registration/checks/counter inferred. Non-trivial = schedule with a forwarded request and a shutdown.")
+                "model with registration/checks/counter inferred. LifecycleRun.tla places real clients in the phases of the real "
+                "listener stack (plain, TLS, PROXY, PROXY+TLS; silent, partial first phase, idle, in flight) when the context of "
+                "HTTPProxy.Run is cancelled before / after the listener's own limits fired: Run returns, the in-flight exchange is "
+                "answered, every connection is closed, a late client is not served, listener / dialer / in-flight gauges are 0. Non-trivial = schedule with a forwarded request and a shutdown.")
     ctx.mc("Lifecycle.tla", "MC_Lifecycle_Q.cfg" if q else "MC_Lifecycle.cfg", timeout=3000)
     binp = ctx.build()
     n = 150 if q else 3000
@@ -55,6 +58,40 @@ def run(ctx):
             start -= 1
         ctx.violation("C11:trace-rejected", {"matched_prefix": hwm, "of": total, "scenario": lines[max(0, start - 1):hwm + 3], "tlc": tout[-800:]})
     ctx.sample({"schedule": cases[len(cases) // 2], "trace_head": open(trace).read().splitlines()[:12]})
+    run_level(ctx, binp, q)
+
+
+def run_level(ctx, binp, q):
+    """whole-HTTPProxy shutdown with clients in the phases of the real listener stack (LifecycleRun.tla)"""
+    ctx.mc("LifecycleRun.tla", "MC_LifecycleRun.cfg")
+    recs, _, _, _ = ctx.gen("LifecycleRun.tla", "GEN_LifecycleRun.cfg")
+    recs = [r for r in recs if "stacking" in r]
+    seen, cases = set(), []
+    for r in recs:
+        k = json.dumps([r["stacking"], sorted(r["clients"]), r["when"]])
+        if k not in seen:
+            seen.add(k)
+            cases.append(r)
+    if q:
+        keep = [["silent"], ["partial"], ["idle", "inflight", "silent"], ["idle", "inflight", "partial", "silent"]]
+        cases = [r for r in cases if sorted(r["clients"]) in keep]
+    if not cases:
+        raise vlib.Infra("LifecycleRun generated no case")
+    out = ctx.run_vh(binp, ["c11-run"], cases=cases, timeout=3000)
+    out, crashed = ctx.nocrash(out, "C11:crash:run-level")
+    if not crashed and len(out) != len(cases):
+        raise vlib.Infra("c11-run: %d results for %d cases" % (len(out), len(cases)))
+    for r in out:
+        ctx.evaluations += 1
+        ctx.nontrivial.add("run:%s:%s:%s" % (r["stacking"], "+".join(sorted(r["clients"])), r["when"]))
+        if not r["ok"]:
+            w = r["why"]
+            k = ("open-connections-after-run" if "open connections" in w or "still open" in w else "run-not-returned" if "had not returned" in w
+                 else "inflight-not-completed" if "in flight" in w else "late-client-served" if "after Run returned was answered" in w else "other")
+            ctx.violation("C11:run-level:%s:%s" % (k, r["stacking"]), r)
+        else:
+            ctx.traces_ok += 1
+    ctx.sample({"run_level": out[len(out) // 2] if out else None})
 
 
 def replay(ctx, path):
